@@ -662,14 +662,7 @@ class SyncObj(object):
                 try:
                     currentTermID = entry[2]
                     subscribers = self.__commandsWaitingCommit.pop(entry[1], [])
-                    try:
-                        res = self.__doApplyCommand(entry[0])
-                    except SyncObjExceptionWrongVer:
-                        raise
-                    except Exception as e:
-                        # The command is committed; every replica gets the same exception.
-                        logger.exception('replicated method raised an exception')
-                        res = e
+                    res = self.__doApplyCommand(entry[0])
                     for subscribeTermID, callback in subscribers:
                         if subscribeTermID == currentTermID:
                             callback(res, FAIL_REASON.SUCCESS)
@@ -859,7 +852,16 @@ class SyncObj(object):
             funcID, args, newKwArgs = command
             kwargs.update(newKwArgs)
 
-        return self._idToMethod[funcID](*args, **kwargs)
+        method = self._idToMethod.get(funcID, None)
+        if method is None:
+            # An entry of a method this code does not have: the node must be upgraded first.
+            raise SyncObjExceptionWrongVer(self.__enabledCodeVersion)
+        try:
+            return method(*args, **kwargs)
+        except Exception as e:
+            # The command is committed; every replica executing it gets the same exception.
+            logger.exception('replicated method raised an exception')
+            return e
 
     def __onMessageReceived(self, node, message):
 
